@@ -24,6 +24,184 @@ class Facts:
             for b in c['bodies']:
                 if 'parent' in b:
                     self.children[b['parent']].append(b['path'])
+        self.hidden = {}
+        self.inlined = {}                   # helper path -> list of callers it was inlined into
+        self._inline_unknown_helpers()
+
+    # ------------------------------------------------------------------ helper inlining
+    # Rules are written against the functions of the reference tree (tables/reference/known_functions.json).  A function of
+    # the repository crates that is not in that table is a helper introduced later (by a refactoring or by a change under
+    # test).  Calls to such helpers are inlined into their callers (MIR splicing, depth <= 3, no recursion), so that
+    # dominance, provenance and call-site rules see through them; a helper all of whose call sites were inlined is hidden
+    # from whole-crate scans (its code is examined in every caller's context instead).
+    def _inline_unknown_helpers(self):
+        here = os.path.dirname(os.path.dirname(os.path.abspath(__file__)))
+        tab = os.path.join(here, 'tables/reference/known_functions.json')
+        if not os.path.exists(tab):
+            return
+        known = set(json.load(open(tab))['functions'])
+        mine = {p for p, b in self.bodies.items() if b.crate in ('cel_parser', 'cel_interpreter')}
+        unknown = {p for p in mine if self.bodies[p].raw['kind'] in ('Fn', 'AssocFn') and p not in known}
+        if not unknown:
+            return
+        def callee_of(t):
+            c = t.get('callee') or {}
+            for k in ('res', 'path'):
+                v = c.get(k)
+                if v in unknown:
+                    return v
+            return None
+        remaining_calls = defaultdict(int)
+        for rnd in range(3):
+            changed = False
+            for p in sorted(mine):
+                b = self.bodies[p]
+                raw = b.raw
+                for bi in range(len(raw['blocks'])):
+                    t = raw['blocks'][bi]['term']
+                    if t['k'] != 'Call':
+                        continue
+                    h = callee_of(t)
+                    if h is None or h == p or self._calls_itself(h, unknown):
+                        continue
+                    hb = self.bodies[h].raw
+                    if len(hb['blocks']) > 400 or len(t['args']) != hb['argc']:
+                        continue
+                    self._splice(raw, bi, hb)
+                    self.inlined.setdefault(h, []).append(p)
+                    for ch in self.children.get(h, []):
+                        if ch not in self.children[p]:
+                            self.children[p].append(ch)
+                    changed = True
+                if changed:
+                    self.bodies[p] = Body(raw, self)
+            if not changed:
+                break
+        # hide helpers that are no longer called anywhere (every call site was inlined)
+        still = set()
+        for p in mine:
+            for blk in self.bodies[p].raw['blocks']:
+                t = blk['term']
+                if t['k'] == 'Call':
+                    h = callee_of(t)
+                    if h and p not in unknown:
+                        still.add(h)
+        refd = self._fn_constants(unknown)
+        for h in sorted(unknown):
+            if h in self.inlined and h not in still and h not in refd:
+                self.hidden[h] = self.bodies.pop(h)
+
+    def inline_view(self, path, depth=2):
+        """a copy of body `path` with the direct calls to functions of the repository crates spliced in (known helpers too);
+        for rules that ask what a function does 'including its private helpers'"""
+        import copy
+        raw = copy.deepcopy(self.body(path).raw)
+        mine = {p for p, b in self.bodies.items() if b.crate in ('cel_parser', 'cel_interpreter') and b.raw['kind'] in ('Fn', 'AssocFn')} | set(self.hidden)
+        done = {path}
+        for _ in range(depth):
+            changed = False
+            for bi in range(len(raw['blocks'])):
+                t = raw['blocks'][bi]['term']
+                if t['k'] != 'Call':
+                    continue
+                c = t.get('callee') or {}
+                h = next((c.get(k) for k in ('res', 'path') if c.get(k) in mine), None)
+                if h is None or h in done:
+                    continue
+                hb = (self.bodies.get(h) or self.hidden.get(h)).raw
+                if len(hb['blocks']) > 400 or len(t['args']) != hb['argc']:
+                    continue
+                self._splice(raw, bi, hb)
+                changed = True
+            if not changed:
+                break
+        return Body(raw, self)
+
+    def _calls_itself(self, h, unknown, stack=()):
+        if h in stack:
+            return True
+        for blk in self.bodies[h].raw['blocks']:
+            t = blk['term']
+            if t['k'] == 'Call':
+                c = t.get('callee') or {}
+                for k in ('res', 'path'):
+                    v = c.get(k)
+                    if v == h or (v in unknown and v != h and len(stack) < 4 and self._calls_itself(v, unknown, stack + (h,)) and v in stack + (h,)):
+                        return True
+        return False
+
+    def _fn_constants(self, names):
+        """helpers referenced as function values (passed to map(..) etc.): those cannot be inlined at the use site"""
+        out = set()
+        def scan(o):
+            if isinstance(o, dict):
+                f = o.get('fn')
+                if isinstance(f, dict):
+                    for k in ('res', 'path'):
+                        if f.get(k) in names:
+                            out.add(f[k])
+                for v in o.values():
+                    scan(v)
+            elif isinstance(o, list):
+                for v in o:
+                    scan(v)
+        for p, b in self.bodies.items():
+            if b.crate in ('cel_parser', 'cel_interpreter'):
+                scan(b.raw['blocks'])
+        return out
+
+    @staticmethod
+    def _splice(raw, bi, hb):
+        """replace the Call terminating block `bi` of `raw` by the body `hb` (locals and blocks renumbered)"""
+        import copy
+        lbase = len(raw['locals'])
+        bbase = len(raw['blocks'])
+        call = raw['blocks'][bi]['term']
+
+        def rl(o):
+            # renumber locals inside a copied callee fragment
+            if isinstance(o, dict):
+                if isinstance(o.get('l'), int) and isinstance(o.get('p'), list):
+                    o['l'] += lbase
+                elif o.get('k') == 'Index' and isinstance(o.get('l'), int):
+                    o['l'] += lbase
+                for k, v in o.items():
+                    if k not in ('span', 'fn_span', 'callee', 'callee_ty', 'arg_tys'):
+                        rl(v)
+            elif isinstance(o, list):
+                for v in o:
+                    rl(v)
+
+        for d in hb['locals']:
+            nd = dict(d)
+            nd['inlined_from'] = hb['path']
+            raw['locals'].append(nd)
+        span = call.get('span')
+        pre = []
+        for i, a in enumerate(call['args']):
+            pre.append({'k': 'Assign', 'place': {'l': lbase + 1 + i, 'p': []}, 'rv': {'k': 'Use', 'op': a}, 'span': span})
+        raw['blocks'][bi]['stmts'] = raw['blocks'][bi]['stmts'] + pre
+        raw['blocks'][bi]['term'] = {'k': 'Goto', 'target': bbase}
+        for blk in hb['blocks']:
+            nb = copy.deepcopy(blk)
+            rl(nb['stmts'])
+            t = nb['term']
+            rl(t)
+            k = t['k']
+            if k == 'Goto':
+                t['target'] += bbase
+            elif k == 'SwitchInt':
+                t['arms'] = [[v, tg + bbase] for v, tg in t['arms']]
+                t['otherwise'] += bbase
+            elif k in ('Call', 'Drop', 'Assert'):
+                if isinstance(t.get('target'), int):
+                    t['target'] += bbase
+                if isinstance(t.get('unwind'), int):
+                    t['unwind'] += bbase
+            elif k == 'Return':
+                nb['stmts'] = nb['stmts'] + [{'k': 'Assign', 'place': copy.deepcopy(call['dest']), 'rv': {'k': 'Use', 'op': {'k': 'Move', 'place': {'l': lbase, 'p': []}}}, 'span': span}]
+                nb['term'] = {'k': 'Goto', 'target': call['target']} if call.get('target') is not None else {'k': 'Unreachable'}
+            raw['blocks'].append(nb)
 
     def crate(self, name):
         if name not in self.crates:
